@@ -331,6 +331,13 @@ func contractsFor(c *Ctx, prop string) *bounds.Hooks {
 		return c05Hooks(c)
 	case "C08":
 		return c08Hooks(c)
+	case "C10", "C14":
+		c.fragLoopsSeen = map[*ssa.BasicBlock]bool{}
+		c.lenPairsSeen = map[ssa.Instruction]bool{}
+		return mergeHooks(twoFragHooks(c, c.fragLoopsSeen), lenPrefixHooks(c, c.lenPairsSeen))
+	case "C13":
+		c.lenPairsSeen = map[ssa.Instruction]bool{}
+		return lenPrefixHooks(c, c.lenPairsSeen)
 	}
 	return nil
 }
